@@ -342,4 +342,161 @@ theorem noDigitStart_cons (b : Nat) (t : List Nat) (h : isDigit b = false) : NoD
   injection e with e1 _
   rw [← e1]; exact h
 
+theorem encodeL_cons_head (x : JVal) (t : List JVal) (hx : IsCanonical x) :
+    ∃ c r, encodeL (x :: t) = c :: r ∧ c ≠ 93 := by
+  obtain ⟨c, r, h1, h2, _⟩ := encode_head x hx
+  cases t with
+  | nil => exact ⟨c, r, by rw [encodeL, h1], h2⟩
+  | cons w t' => exact ⟨c, r ++ 44 :: encodeL (w :: t'), by rw [encodeL, h1]; rfl; simp, h2⟩
+
+theorem encodeO_cons_head (k : Str) (v : JVal) (t : List (Str × JVal)) :
+    ∃ r, encodeO ((k, v) :: t) = 34 :: r := by
+  cases t with
+  | nil => exact ⟨_, by rw [encodeO]; rfl⟩
+  | cons w t' => exact ⟨_, by rw [encodeO]; rfl; simp⟩
+
+mutual
+theorem decodeVal_encode : ∀ (v : JVal) (rest : List Nat) (fuel : Nat), IsCanonical v →
+    NoDigitStart rest → 2 * (encode v).length + 2 ≤ fuel →
+    decodeVal fuel (encode v ++ rest) = some (v, rest)
+  | .null, rest, fuel, _, _, hf => by
+    cases fuel with
+    | zero => omega
+    | succ f =>
+      show decodeVal (f + 1) (110 :: ([117, 108, 108] ++ rest)) = _
+      simp [decodeVal, stripPrefix]
+  | .bool true, rest, fuel, _, _, hf => by
+    cases fuel with
+    | zero => omega
+    | succ f =>
+      show decodeVal (f + 1) (116 :: ([114, 117, 101] ++ rest)) = _
+      simp [decodeVal, stripPrefix]
+  | .bool false, rest, fuel, _, _, hf => by
+    cases fuel with
+    | zero => omega
+    | succ f =>
+      show decodeVal (f + 1) (102 :: ([97, 108, 115, 101] ++ rest)) = _
+      simp [decodeVal, stripPrefix]
+  | .int i, rest, fuel, _, hr, hf => by
+    cases fuel with
+    | zero => omega
+    | succ f =>
+      obtain ⟨d, t, h1, h2⟩ := encodeInt_head i
+      have hd : d ≠ 110 ∧ d ≠ 116 ∧ d ≠ 102 ∧ d ≠ 34 ∧ d ≠ 91 ∧ d ≠ 123 := by
+        rcases h2 with h2 | h2
+        · omega
+        · simp [isDigit] at h2; omega
+      have := decodeInt_encodeInt i rest hr
+      rw [encode]
+      rw [h1] at this ⊢
+      simp only [List.cons_append] at this ⊢
+      simp [decodeVal, hd, this]
+  | .float, _, _, h, _, _ => by cases h
+  | .str s, rest, fuel, _, _, hf => by
+    cases fuel with
+    | zero => omega
+    | succ f =>
+      have := decodeStr_encodeStr s rest
+      rw [encode]
+      unfold encodeStr at this ⊢
+      simp only [List.cons_append, List.append_assoc, List.nil_append] at this ⊢
+      simp [decodeVal, this]
+  | .arr [], rest, fuel, _, _, hf => by
+    cases fuel with
+    | zero => omega
+    | succ f =>
+      show decodeVal (f + 1) (91 :: 93 :: rest) = _
+      simp [decodeVal]
+  | .arr (x :: t), rest, fuel, hc, hr, hf => by
+    cases fuel with
+    | zero => omega
+    | succ f =>
+      obtain ⟨c, r, h1, h2⟩ := encodeL_cons_head x t hc.1
+      have hlen : 2 * (encodeL (x :: t)).length + 3 ≤ f := by
+        rw [encode] at hf; simp only [List.length_cons, List.length_append, List.length_nil] at hf; omega
+      have ih := decodeElems_encodeL (x :: t) rest f (by simp) hc hr hlen
+      rw [encode]
+      simp only [List.cons_append, List.append_assoc, List.nil_append]
+      rw [h1] at ih ⊢
+      simp only [List.cons_append] at ih ⊢
+      simp [decodeVal, h2, ih]
+  | .obj [], rest, fuel, _, _, hf => by
+    cases fuel with
+    | zero => omega
+    | succ f =>
+      show decodeVal (f + 1) (123 :: 125 :: rest) = _
+      simp [decodeVal]
+  | .obj ((k, v) :: t), rest, fuel, hc, hr, hf => by
+    cases fuel with
+    | zero => omega
+    | succ f =>
+      obtain ⟨r, h1⟩ := encodeO_cons_head k v t
+      have hlen : 2 * (encodeO ((k, v) :: t)).length + 3 ≤ f := by
+        rw [encode] at hf; simp only [List.length_cons, List.length_append, List.length_nil] at hf; omega
+      have ih := decodeMembers_encodeO ((k, v) :: t) rest f (by simp) hc.2 hr hlen
+      rw [encode]
+      simp only [List.cons_append, List.append_assoc, List.nil_append]
+      rw [h1] at ih ⊢
+      simp only [List.cons_append] at ih ⊢
+      simp [decodeVal, ih]
+theorem decodeElems_encodeL : ∀ (l : List JVal) (rest : List Nat) (fuel : Nat), l ≠ [] →
+    IsCanonicalL l → NoDigitStart rest → 2 * (encodeL l).length + 3 ≤ fuel →
+    decodeElems fuel (encodeL l ++ 93 :: rest) = some (l, rest)
+  | [], _, _, hne, _, _, _ => absurd rfl hne
+  | [v], rest, fuel, _, hc, hr, hf => by
+    cases fuel with
+    | zero => omega
+    | succ f =>
+      rw [encodeL] at hf ⊢
+      have := decodeVal_encode v (93 :: rest) f hc.1 (noDigitStart_cons 93 rest (by decide)) (by omega)
+      simp [decodeElems, this]
+  | v :: w :: t, rest, fuel, _, hc, hr, hf => by
+    cases fuel with
+    | zero => omega
+    | succ f =>
+      have e : encodeL (v :: w :: t) = encode v ++ (44 :: encodeL (w :: t)) := by rw [encodeL]; simp
+      rw [e] at hf ⊢
+      simp only [List.length_append, List.length_cons] at hf
+      have h1 := decodeVal_encode v (44 :: (encodeL (w :: t) ++ 93 :: rest)) f hc.1
+        (noDigitStart_cons 44 _ (by decide)) (by omega)
+      have h2 := decodeElems_encodeL (w :: t) rest f (by simp) hc.2 hr (by omega)
+      simp only [List.append_assoc, List.cons_append]
+      simp [decodeElems, h1, h2]
+theorem decodeMembers_encodeO : ∀ (l : List (Str × JVal)) (rest : List Nat) (fuel : Nat), l ≠ [] →
+    IsCanonicalO l → NoDigitStart rest → 2 * (encodeO l).length + 3 ≤ fuel →
+    decodeMembers fuel (encodeO l ++ 125 :: rest) = some (l, rest)
+  | [], _, _, hne, _, _, _ => absurd rfl hne
+  | [(k, v)], rest, fuel, _, hc, hr, hf => by
+    cases fuel with
+    | zero => omega
+    | succ f =>
+      rw [encodeO] at hf ⊢
+      simp only [List.length_append, List.length_cons] at hf
+      have h0 := decodeStr_encodeStr k (58 :: (encode v ++ 125 :: rest))
+      have := decodeVal_encode v (125 :: rest) f hc.1 (noDigitStart_cons 125 rest (by decide)) (by omega)
+      simp only [List.append_assoc, List.cons_append]
+      simp [decodeMembers, h0, this]
+  | (k, v) :: w :: t, rest, fuel, _, hc, hr, hf => by
+    cases fuel with
+    | zero => omega
+    | succ f =>
+      have e : encodeO ((k, v) :: w :: t) = encodeStr k ++ (58 :: encode v) ++ (44 :: encodeO (w :: t)) := by
+        rw [encodeO]; simp
+      rw [e] at hf ⊢
+      simp only [List.length_append, List.length_cons] at hf
+      have h0 := decodeStr_encodeStr k (58 :: (encode v ++ 44 :: (encodeO (w :: t) ++ 125 :: rest)))
+      have h1 := decodeVal_encode v (44 :: (encodeO (w :: t) ++ 125 :: rest)) f hc.1
+        (noDigitStart_cons 44 _ (by decide)) (by omega)
+      have h2 := decodeMembers_encodeO (w :: t) rest f (by simp) hc.2 hr (by omega)
+      simp only [List.append_assoc, List.cons_append]
+      simp [decodeMembers, h0, h1, h2]
+end
+
+/-- Reading the serialised form of a canonical value gives the value back. -/
+theorem decodeCanon_encode (v : JVal) (h : IsCanonical v) : decodeCanon (encode v) = some v := by
+  unfold decodeCanon
+  have := decodeVal_encode v [] (2 * (encode v).length + 2) h (by intro b t e; cases e) (Nat.le_refl _)
+  rw [List.append_nil] at this
+  rw [this]
+
 end Ruma.Canonical
